@@ -154,6 +154,7 @@ class SymbolicExpression(Generic[T], ABC):
     _id_: int = field(init=False, repr=False, default=None)
     _node_: RWXNode = field(init=False, default=None, repr=False)
     _id_expression_map_: ClassVar[Dict[int, SymbolicExpression]] = {}
+    _is_symbolic_expression_: ClassVar[bool] = True
     _conclusion_: typing.Set[Conclusion] = field(init=False, default_factory=set)
     _symbolic_expression_stack_: ClassVar[List[SymbolicExpression]] = []
     _is_false_: bool = field(init=False, repr=False, default=False)
